@@ -663,7 +663,7 @@ def fabric_start(scripts=(("start",), ("start",)), pool=4, prestarted=False):
 
 
 # ---- a timed post at capacity (C31 under every interleaving of the caller with the rejected source's thread) ----------------------
-def rejecting(deferred=True, times=1, kind="fifo", capacity=2, pending=0):
+def rejecting(deferred=True, times=1, kind="fifo", capacity=2, pending=0, existing=None):
   """thread 0 makes a timed post while the object already tracks `capacity` sources: the real post_fifo/post_lifo -> __post_event,
   translated whole (capacity test, run flag, spec, Thread(...), start, tracking record).  A thread the code creates is compiled on the
   spot from its target (the real post_event_thread_runner closure) and can run from the moment start() was called on it."""
@@ -692,7 +692,8 @@ def rejecting(deferred=True, times=1, kind="fifo", capacity=2, pending=0):
   SPEC = RecordClass("PostedEventThreadSpec", ["event", "queue_type", "total_times", "deferred", "period", "task_run_event"])
   old_flags = []
   recs = []
-  for i in range(capacity):
+  existing = capacity if existing is None else existing       # sources already tracked (default: the list is full)
+  for i in range(existing):
     f = sc.add(M.MEvent("old%d.run" % i, 1))
     old_flags.append(f)
     recs.append(PE.new(signal_name=SK(sc.strings.code("W_OLD%d" % i), "W_OLD%d" % i), task_run_event=SO(f), uuid=SK(20 + i, 20 + i)))
@@ -764,6 +765,6 @@ def rejecting(deferred=True, times=1, kind="fifo", capacity=2, pending=0):
   if spawned_programs:
     sc.programs.append(spawned_programs[0])
     sc.spawned[2] = new_thread_model
-  sc.info = {"capacity": capacity, "deferred": deferred, "times": times, "kind": kind, "pending": pending, "old_flags": [f.name for f in old_flags],
+  sc.info = {"capacity": capacity, "existing": existing, "deferred": deferred, "times": times, "kind": kind, "pending": pending, "old_flags": [f.name for f in old_flags],
              "thread_created_on_translated_path": bool(spawned_programs)}
   return sc
